@@ -16,6 +16,7 @@ CONSTANTS
   MaxCall = 5
   FrameAligned = FALSE
   MaxAhead = 5
+  MaxTimeouts = 0
   EndKinds = {"close"}
   KeepCalls = FALSE
   Variant = "intended"
